@@ -14,7 +14,9 @@ CODES = {1: 'walk(all targets, file) differs from the model', 2: 'walk from a su
          11: 'implementation output is not the complete pre-order filtered by kind (specification)',
          12: 'the walk from a sub-root is not the complete pre-order of that node (specification)',
          13: 'extract_targets_from_node(subset) does not return exactly the nodes of the requested kinds in pre-order (specification)',
-         14: 'extract_target_from_node(single) does not return every node of the requested kind exactly once (specification)'}
+         14: 'extract_target_from_node(single) does not return every node of the requested kind exactly once (specification)',
+         15: 'extract_targets_from_node from a sub-root, called after the same searches over a same-shaped sibling file, does not return '
+             'the nodes the walk from that root returns (specification: the complete pre-order of that node)'}
 
 
 def exprs_for(p, r):
@@ -47,7 +49,10 @@ def evaluate(ctx, progs, name):
         if len(v) == 1:
             out.append((p, r, ['PANIC'], v[0]))
         else:
-            out.append((p, r, v[0], v[1]))
+            f = list(v[0])
+            if isinstance(r['walk'], dict) and r['walk'].get('subx'):
+                f.append(15)
+            out.append((p, r, f, v[1]))
     return ps, out
 
 
@@ -102,7 +107,7 @@ def run(rep, ctx):
             small = common.shrink(p['src'], still) if ctx.tier else p['src']
             _, o = evaluate(ctx, [{'gen': 'min', 'src': small}], 'shrink')
             pp, rr, ff, ss = o[0]
-            spec = bool({11, 12, 13, 14} & set(ff)) or 'PANIC' in ff
+            spec = bool({11, 12, 13, 14, 15} & set(ff)) or 'PANIC' in ff
             rep.violation('; '.join(CODES.get(c, str(c)) for c in ff),
                           {'kind': 'S' if spec else 'M', 'input': small, 'original_gen': p['gen'], 'failed_subchecks': ff,
                            'impl_walk_all': rr['walk'].get('all') if isinstance(rr['walk'], dict) else 'PANIC',
